@@ -316,3 +316,73 @@ def _hyperbolic_modular(sigma, sign):
 for _s in (+1, -1):
     for _g in (+1, -1):
         _hyperbolic_modular(_s, _g)
+
+
+# ---- bounded: whole two-mirror telescopes (stigmatic on axis in closed form) through the public API ---------------------------------
+def _two_mirror(ct, tier, seed):
+    """paraboloid primary + conic secondary whose geometric foci are the prime focus and the final image point (Cassegrain:
+    convex hyperboloid in front of the prime focus; Gregorian: concave ellipsoid behind it), built with add_surface and traced with
+    Optic.trace: every ray reaches the closed-form image point with equal optical paths, whatever the aperture"""
+    import random
+    import time
+    import warnings
+    import numpy as np
+    from optiland.optic import Optic
+    warnings.simplefilter('ignore')
+    np.seterr(all='ignore')
+    t0 = time.time()
+    rng = random.Random(seed * 53 + 12)
+    clauses, fails, cases = {}, [], 0
+
+    def note(cid, ok, detail, inputs):
+        c_ = clauses.setdefault(cid, {'paths': 0, 'proved': 0, 'backends': {}, 'failed': [], 'seconds': 0.0, 'bounded': True})
+        c_['paths'] += 1
+        if ok:
+            c_['proved'] += 1
+            c_['backends']['runtime'] = c_['backends'].get('runtime', 0) + 1
+        else:
+            fails.append({'clause': cid, 'draws': inputs, 'note': detail})
+    for i in range(4 if tier == 'quick' else 24):
+        f1 = rng.uniform(80, 200)
+        kind = 'cassegrain' if i % 2 == 0 else 'gregorian'
+        d = f1 * (rng.uniform(0.55, 0.85) if kind == 'cassegrain' else rng.uniform(1.15, 1.4))     # primary -> secondary
+        sp = d + rng.uniform(5, 40)                                                               # secondary -> image (behind the primary)
+        s_ = abs(f1 - d)                                                                          # secondary vertex -> prime focus
+        if kind == 'cassegrain':
+            a, cc = (sp - s_) / 2, (sp + s_) / 2
+            R2, k2 = -(cc * cc - a * a) / a, -(cc / a) ** 2
+        else:
+            a, cc = (sp + s_) / 2, (sp - s_) / 2
+            R2, k2 = (a * a - cc * cc) / a, -(cc / a) ** 2
+        epd = f1 / rng.uniform(2.0, 8.0)
+        L = Optic()
+        L.add_surface(index=0, thickness=np.inf)
+        L.add_surface(index=1, radius=-2 * f1, conic=-1.0, thickness=-d, material='mirror', is_stop=True)
+        L.add_surface(index=2, radius=R2, conic=k2, thickness=sp, material='mirror')
+        L.add_surface(index=3)
+        L.set_aperture('EPD', epd)
+        L.set_field_type('angle')
+        L.add_field(y=0)
+        L.add_wavelength(0.55, is_primary=True)
+        inputs = {'kind': kind, 'f1': f1, 'd': d, 'sp': sp, 'EPD': epd}
+        try:
+            L.trace(0, 0, 0.55, num_rays=4, distribution='hexapolar')
+        except Exception as ex:
+            note('C06.runtime.two_mirror_telescope_traces', False, '%s: %s' % (type(ex).__name__, ex), inputs)
+            continue
+        sg = L.surface_group
+        x, y, opl = sg.x[-1], sg.y[-1], sg.opd[-1]
+        cases += 1
+        fin = bool(np.all(np.isfinite(x)) and np.all(np.isfinite(opl)))
+        note('C06.runtime.two_mirror_every_ray_reaches_the_image_surface', fin, 'launched at z = %s with N = %s' % (sg.z[0][0], sg.N[0][0]), inputs)
+        if fin:
+            note('C06.runtime.two_mirror_every_ray_meets_the_image_point', float(np.max(np.hypot(x, y))) <= 1e-9 * f1, 'max radius %.3e' % np.max(np.hypot(x, y)), inputs)
+            note('C06.runtime.two_mirror_equal_optical_paths', float(np.ptp(opl)) <= 1e-9 * f1, 'spread %.3e' % np.ptp(opl), inputs)
+    return {'contract': ct.name, 'functions': ct.functions, 'props': ct.props,
+            'symbolic': {'clauses': clauses, 'paths': 0, 'errors': [], 'solver_s': 0.0, 'samples': [], 'wd_assumed': [], 'assumed': []},
+            'numeric': {'accepted': cases, 'rejected': 0, 'failures': fails[:10], 'concolic_agree': 0, 'encoder_mismatches': [],
+                        'samples': [{'systems': 'Cassegrain / Gregorian'}]}, 'wall_s': time.time() - t0}
+
+
+contract('C06.runtime.two_mirror', ['optiland/optic.py:Optic.trace', 'optiland/rays/ray_generator.py:RayGenerator._get_starting_z_offset',
+                                    'optiland/surfaces/surface_group.py:SurfaceGroup.trace'], ['C06'], custom=_two_mirror)(lambda c: None)
